@@ -92,9 +92,18 @@ class SFTPFile(BufferedFile):
         if self._closed:
             return
         self.sftp._log(DEBUG, "close({})".format(u(hexlify(self.handle))))
-        if self.pipelined:
-            self.sftp._finish_responses(self)
         BufferedFile.close(self)
+        error = None
+        if self._reqs and not async_:
+            # collect the answers to the pipelined writes still in flight
+            # (including what the flush above just sent); a write the server
+            # turned down must not go unnoticed.
+            try:
+                self.sftp._finish_responses(self)
+                self._check_exception()
+            except Exception as e:
+                error = e
+            self._reqs.clear()
         try:
             if async_:
                 # GC'd file handle could be called from an arbitrary thread
@@ -108,6 +117,8 @@ class SFTPFile(BufferedFile):
         except (IOError, socket.error):
             # may have outlived the Transport connection
             pass
+        if error is not None:
+            raise error
 
     def _data_in_prefetch_requests(self, offset, size):
         k = [
@@ -192,23 +203,30 @@ class SFTPFile(BufferedFile):
     def _write(self, data):
         # may write less than requested if it would exceed max packet size
         chunk = min(len(data), self.MAX_REQUEST_SIZE)
+        if not self.pipelined:
+            t, msg = self.sftp._request(
+                CMD_WRITE, self.handle, int64(self._realpos), data[:chunk]
+            )
+            if t != CMD_STATUS:
+                raise SFTPError("Expected status")
+            # convert_status already called
+            return chunk
+        # pipelined: the answer is handed to _async_response whenever it
+        # arrives, whoever happens to be reading responses at that moment,
+        # and a failure is kept for us to raise.
+        self._check_exception()
         sftp_async_request = self.sftp._async_request(
-            type(None),
+            self,
             CMD_WRITE,
             self.handle,
             int64(self._realpos),
             data[:chunk],
         )
         self._reqs.append(sftp_async_request)
-        if not self.pipelined or (
-            len(self._reqs) > 100 and self.sftp.sock.recv_ready()
-        ):
-            while len(self._reqs):
-                req = self._reqs.popleft()
-                t, msg = self.sftp._read_response(req)
-                if t != CMD_STATUS:
-                    raise SFTPError("Expected status")
-                # convert_status already called
+        if len(self._reqs) > 100 and self.sftp.sock.recv_ready():
+            # don't let the answers pile up
+            self.sftp._finish_responses(self)
+            self._reqs.clear()
         return chunk
 
     def settimeout(self, timeout):
